@@ -64,8 +64,10 @@ pub fn reference(cfg: &Cfg, host: Option<&str>, path: &str, ws: bool) -> Option<
     list.iter().position(|r| matches(r, path)).map(|j| format!("d{}{}", if ws { "w" } else { "r" }, j))
 }
 
-pub const HOSTS_REQ: [Option<&str>; 6] = [None, Some("x.test"), Some("y.test"), Some("x.test:80"), Some("other"), Some("x.y")];
-pub const TARGETS: [(&str, &str); 8] = [("/", "/"), ("/a", "/a"), ("/ab", "/ab"), ("/a/b", "/a/b"), ("/b", "/b"), ("/a?q", "/a"), ("/a/b?x=/b", "/a/b"), ("/x/b?/a", "/x/b")];
+pub const HOSTS_REQ: [Option<&str>; 8] = [None, Some("x.test"), Some("y.test"), Some("x.test:80"), Some("other"), Some("x.y"), Some("x.test.test"), Some("x.x.test")];
+// targets include repeats of the literal tails of the patterns (`*b` vs `/b/b`, `/*/b` vs `/x/b/b`): a matcher
+// that does not retry its last wildcard fails exactly there
+pub const TARGETS: [(&str, &str); 12] = [("/", "/"), ("/a", "/a"), ("/ab", "/ab"), ("/a/b", "/a/b"), ("/b", "/b"), ("/a?q", "/a"), ("/a/b?x=/b", "/a/b"), ("/x/b?/a", "/x/b"), ("/b/b", "/b/b"), ("/x/b/b", "/x/b/b"), ("/ab/ab", "/ab/ab"), ("/a/a", "/a/a")];
 
 fn check_cfg(s: &mut Stats, cfg: &Cfg, with_ws: bool) {
     let parts = build(cfg).verif_into_parts();
